@@ -92,7 +92,7 @@ def rule_dispatch(ctx: Ctx, prog: Program) -> None:
                             if param_reg.setdefault(pn, reg) != reg:
                                 ctx.violation("R-DISPATCH", f.path, f.qualname, f"addr-arg:{pn}", f"{f.path}:{e.line}",
                                               f"{f.qualname} passes the addresses of {reg} to solve_one's '{pn}', which elsewhere receives those of {param_reg[pn]}")
-    ctx.floor("R-DISPATCH:solve_one-call-sites", sites, 4)
+    ctx.floor("R-DISPATCH:solve_one-call-sites", sites, 2)
     if len(param_reg) != 4:
         ctx.violation("R-DISPATCH", so.path, "solve_one", "address-params", so.loc(),
                       f"the four address arrays solve_one receives are not, at every call site, the result of get_function_addresses() taken in the calling "
